@@ -5,10 +5,8 @@
   `driver ref`  prints the REFERENCE semantics' outcome where the property names one ("n/a" otherwise).
   Imports only core-Lean modules of FP (Model/Ref/Gen/Drv), so it links as an executable.
 -/
-import FP.Drv.C06
-
-def handlers : List (List String → Option String) := [FP.Drv.C06.handle]
-def refHandlers : List (List String → Option String) := [FP.Drv.C06.handleRef]
+import FP.Drv.All
+open FP.Drv
 
 def dispatch (hs : List (List String → Option String)) (dflt : String) (line : String) : String :=
   let toks := (line.splitOn " ").filter (· ≠ "")
